@@ -9,6 +9,7 @@ import (
 	"math/big"
 	"runtime/debug"
 	"strings"
+	"unsafe"
 
 	"github.com/nspcc-dev/neo-go/pkg/core/fee"
 	"github.com/nspcc-dev/neo-go/pkg/smartcontract/scparser"
@@ -28,13 +29,14 @@ const (
 	limIntBits  = 256
 )
 
-var minInt256 = new(big.Int).Neg(new(big.Int).Lsh(big.NewInt(1), limIntBits-1))
-
-// walker counts what is really reachable from stacks and slots.
+// walker counts what is really reachable from stacks and slots. Compounds are
+// marked per walk with an epoch (no clearing between steps); a walker lives for
+// one script.
 type walker struct {
-	state   map[stackitem.Item]uint8 // 1 = on the DFS path, 2 = done
-	stacks  map[*vm.Stack]struct{}
-	statics map[*vm.Slot]struct{}
+	marks   map[unsafe.Pointer]uint32 // epoch = on the DFS path, epoch+1 = done
+	epoch   uint32
+	stacks  []*vm.Stack
+	statics []*vm.Slot
 	count   int
 	cyclic  bool
 	// worst offenders seen during this walk
@@ -47,13 +49,13 @@ type walker struct {
 }
 
 func newWalker() *walker {
-	return &walker{state: map[stackitem.Item]uint8{}, stacks: map[*vm.Stack]struct{}{}, statics: map[*vm.Slot]struct{}{}}
+	return &walker{marks: map[unsafe.Pointer]uint32{}}
 }
 
 func (w *walker) reset() {
-	clear(w.state)
-	clear(w.stacks)
-	clear(w.statics)
+	w.epoch += 2
+	w.stacks = w.stacks[:0]
+	w.statics = w.statics[:0]
 	w.count, w.cyclic, w.maxBits, w.maxBytes, w.badInt, w.badBytes, w.depth, w.maxDepth = 0, false, 0, 0, nil, "", 0, 0
 }
 
@@ -89,23 +91,23 @@ func (w *walker) visit(it stackitem.Item) {
 			w.badBytes = "Buffer"
 		}
 	case *stackitem.Array:
-		w.compound(it, t.Value().([]stackitem.Item), nil)
+		w.compound(unsafe.Pointer(t), t.Value().([]stackitem.Item), nil)
 	case *stackitem.Struct:
-		w.compound(it, t.Value().([]stackitem.Item), nil)
+		w.compound(unsafe.Pointer(t), t.Value().([]stackitem.Item), nil)
 	case *stackitem.Map:
-		w.compound(it, nil, t.Value().([]stackitem.MapElement))
+		w.compound(unsafe.Pointer(t), nil, t.Value().([]stackitem.MapElement))
 	}
 }
 
-func (w *walker) compound(it stackitem.Item, arr []stackitem.Item, m []stackitem.MapElement) {
-	switch w.state[it] {
-	case 1:
+func (w *walker) compound(p unsafe.Pointer, arr []stackitem.Item, m []stackitem.MapElement) {
+	switch w.marks[p] {
+	case w.epoch:
 		w.cyclic = true
 		return
-	case 2:
+	case w.epoch + 1:
 		return
 	}
-	w.state[it] = 1
+	w.marks[p] = w.epoch
 	w.depth++
 	if w.depth > w.maxDepth {
 		w.maxDepth = w.depth
@@ -123,17 +125,19 @@ func (w *walker) compound(it stackitem.Item, arr []stackitem.Item, m []stackitem
 		}
 	}
 	w.depth--
-	w.state[it] = 2
+	w.marks[p] = w.epoch + 1
 }
 
 func (w *walker) stack(s *vm.Stack) {
 	if s == nil {
 		return
 	}
-	if _, ok := w.stacks[s]; ok {
-		return
+	for _, x := range w.stacks {
+		if x == s {
+			return
+		}
 	}
-	w.stacks[s] = struct{}{}
+	w.stacks = append(w.stacks, s)
 	s.IterBack(func(e vm.Element) {
 		w.count++
 		if it := e.Item(); it != nil {
@@ -160,8 +164,15 @@ func (w *walker) walkVM(v *vm.VM) {
 		w.slot(c.LocalsSlot())
 		w.slot(c.ArgumentsSlot())
 		st := c.StaticsSlot()
-		if _, ok := w.statics[st]; !ok {
-			w.statics[st] = struct{}{}
+		dup := false
+		for _, x := range w.statics {
+			if x == st {
+				dup = true
+				break
+			}
+		}
+		if !dup {
+			w.statics = append(w.statics, st)
 			w.slot(st)
 		}
 	}
@@ -232,22 +243,23 @@ type caseCfg struct {
 
 // outcome of a monitored execution.
 type outcome struct {
-	State      string // HALT, FAULT, CAPPED, PANIC
-	Steps      int    // non-faulting monitored steps
-	Gas        int64
-	FaultMsg   string
-	EverCyclic bool
-	MaxItems   int
-	MaxDepth   int // invocation stack
-	MaxTry     int
-	MaxBits    int
-	MaxBytes   int
-	MaxNest    int
-	OverCount  int // steps with refs > walked (only legal with a cycle)
-	Correct    bool
-	OffChecked int
-	OpCount    [256]uint32
-	Viol       *violation
+	State       string // HALT, FAULT, CAPPED, PANIC
+	Steps       int    // non-faulting monitored steps
+	Gas         int64
+	FaultMsg    string
+	EverCyclic  bool
+	MaxItems    int
+	MaxDepth    int // invocation stack
+	MaxTry      int
+	MaxBits     int
+	MaxBytes    int
+	MaxNest     int
+	OverCount   int // steps with refs > walked (only legal with a cycle)
+	Correct     bool
+	StaticPanic bool
+	OffChecked  int
+	OpCount     [256]uint32
+	Viol        *violation
 }
 
 type violation struct {
@@ -281,8 +293,8 @@ func topFrame(stack string) string {
 
 func normMsg(x any) string {
 	s := fmt.Sprint(x)
-	if len(s) > 80 {
-		s = s[:80]
+	if len(s) > 400 {
+		s = s[:400]
 	}
 	out := make([]byte, 0, len(s))
 	for i := 0; i < len(s); i++ {
@@ -293,9 +305,26 @@ func normMsg(x any) string {
 			}
 			continue
 		}
+		if c == '\n' {
+			break
+		}
 		out = append(out, c)
 	}
+	if len(out) > 90 {
+		out = out[:90]
+	}
 	return string(out)
+}
+
+// safeCorrect runs the static script check; a panic inside it is not a verdict
+// of this property (it is recorded and the script counts as not accepted).
+func safeCorrect(script []byte) (ok bool, panicked bool) {
+	defer func() {
+		if recover() != nil {
+			ok, panicked = false, true
+		}
+	}()
+	return scparser.IsScriptCorrect(script, nil) == nil, false
 }
 
 type monitor struct {
@@ -330,10 +359,18 @@ func boundaries(script []byte, into []bool) []bool {
 // run executes one script step by step under the monitor.
 func (m *monitor) run(c *caseCfg) (o outcome) {
 	script := c.Script
-	o.Correct = scparser.IsScriptCorrect(script, nil) == nil
+	m.w = newWalker()
+	o.Correct, o.StaticPanic = safeCorrect(script)
 	var bounds []bool
 	if o.Correct {
-		m.bounds = boundaries(script, m.bounds)
+		func() {
+			defer func() {
+				if recover() != nil {
+					m.bounds = nil
+				}
+			}()
+			m.bounds = boundaries(script, m.bounds)
+		}()
 		bounds = m.bounds
 		if bounds == nil {
 			// accepted by the static check although a linear decode fails
